@@ -70,11 +70,44 @@ type world struct {
 	limit   uint16
 	pool    [][]byte // proof blobs seen so far (for node substitution)
 	known   map[common.Hash]bool // hashes the Lean Database model currently has in memory
+	copied  bool                 // a second live trie exists (op COPY)
+	cur     int                  // the side the active fields (tr, st, content, touched, base) belong to
+	other   *sideState           // the inactive side
 	expectOrder string           // order of node writes of the last Database.Commit / Cap ("n:digest")
 	touched map[string]bool      // user keys written through the live SecureTrie object (their preimages must be findable)
 	// statistics
 	maxSize    int
 	effDeletes int
+}
+
+// sideState is what differs between the two live tries after a COPY.
+type sideState struct {
+	tr      *trie.Trie
+	st      *trie.SecureTrie
+	content map[string][]byte
+	touched map[string]bool
+	base    int
+}
+
+// copyTrie makes the second live trie: SecureTrie.Copy, or the struct copy it performs for a plain Trie.
+func (w *world) copyTrie() {
+	// (the copy of a SecureTrie starts with an empty preimage cache: no key counts as written through it yet)
+	o := &sideState{content: copyMap(w.content), touched: map[string]bool{}, base: w.base}
+	if w.secure {
+		o.st = w.st.Copy()
+	} else {
+		cp := *w.tr
+		o.tr = &cp
+	}
+	w.other = o
+	w.copied = true
+}
+
+func (w *world) switchSide() {
+	o := w.other
+	w.other = &sideState{tr: w.tr, st: w.st, content: w.content, touched: w.touched, base: w.base}
+	w.tr, w.st, w.content, w.touched, w.base = o.tr, o.st, o.content, o.touched, o.base
+	w.cur = 1 - w.cur
 }
 
 func newWorld(secure bool) *world {
@@ -222,6 +255,27 @@ func (r *runner) runSeq(lines []string) (fail *seqFail, w *world, err error) {
 	for i, l := range lines {
 		f := strings.Fields(l)
 		if len(f) == 0 {
+			continue
+		}
+		// `@1 op …` addresses the second live trie (after COPY); everything else the first
+		side := 0
+		if strings.HasPrefix(f[0], "@") {
+			if f[0] == "@1" {
+				side = 1
+			}
+			f = f[1:]
+			if len(f) == 0 {
+				continue
+			}
+		}
+		if w != nil && w.copied && side != w.cur {
+			w.switchSide()
+			if _, e := r.ask(fmt.Sprintf("SIDE %d", w.cur)); e != nil {
+				return nil, w, e
+			}
+		}
+		if side == 1 && (w == nil || !w.copied) {
+			r.dist("skipped-no-second-trie")
 			continue
 		}
 		if w == nil && f[0] != "RESET" && f[0] != "MODE" && f[0] != "DS" && f[0] != "V" && f[0] != "VK" && f[0] != "CRASH" {
@@ -637,7 +691,24 @@ func (r *runner) runSeq(lines []string) (fail *seqFail, w *world, err error) {
 			if fl, e := r.dbSync(w, i, lines[i], "DBREF "+hx(root.Bytes())); fl != nil || e != nil {
 				return fl, w, e
 			}
+		case "COPY":
+			// a second live trie, taken while the first may hold uncommitted modifications
+			if w.copied && w.cur != 0 {
+				continue
+			}
+			g := guarded(func() string { w.copyTrie(); return "ok" })
+			if g != "ok" {
+				return mkfail("crash", i, "copying the trie panicked"), w, nil
+			}
+			if _, e := r.ask("COPY"); e != nil {
+				return nil, w, e
+			}
+			r.dist("trie-copied")
 		case "REF", "DEREF", "DBC", "R", "RF":
+			if w.copied && (f[0] == "DEREF" || f[0] == "R" || f[0] == "RF") {
+				r.dist("skipped-after-copy") // two live tries: nothing is released or re-opened, both bases stay referenced
+				continue
+			}
 			if len(w.roots) == 0 {
 				r.dist("skipped-no-root")
 				continue
@@ -955,7 +1026,12 @@ func (r *runner) dbSync(w *world, li int, line string, op string) (*seqFail, err
 		if strings.HasPrefix(op, "DBCOMMIT ") || strings.HasPrefix(op, "DBCAP ") {
 			// the SEQUENCE of node writes (first occurrences), not only the final set
 			r.dist("db-write-order-compared")
-			if m != "ok "+w.expectOrder {
+			exp := "ok " + w.expectOrder
+			if strings.HasPrefix(op, "DBCOMMIT ") {
+				// ordered-closed=true: the state before the commit meets the hypotheses of db_commit_children_first
+				exp += " ordered-closed=true"
+			}
+			if m != exp {
 				return &seqFail{kind: "correspondence", line: li, what: fmt.Sprintf("line %d `%s` (%s): order of disk writes differs: go=%s lean=%s (the model writes children before parents)", li, trunc(line, 80), op, w.expectOrder, m)}, nil
 			}
 		}
@@ -983,8 +1059,7 @@ func (r *runner) dbSync(w *world, li int, line string, op string) (*seqFail, err
 	dg := func(parts []string) string {
 		return fmt.Sprintf("%d:%s", len(parts), hex.EncodeToString(crypto.Keccak256([]byte(strings.Join(parts, ","))))[:16])
 	}
-	// ordered-closed=true: the model state satisfies the hypotheses of the Lean theorem db_commit_children_first
-	g := fmt.Sprintf("mem=%s meta=%s disk=%s ordered-closed=true", dg(mem), dg(mt), dg(dk))
+	g := fmt.Sprintf("mem=%s meta=%s disk=%s", dg(mem), dg(mt), dg(dk))
 	m, e := r.ask("DBDUMP")
 	if e != nil {
 		return nil, e
